@@ -81,6 +81,47 @@ check("C16", "exploration",
       "exhaustive enumeration of value alphabet x deserialiser paths, and of type expressions x placements on compiled generated code",
       "DESIGN.md 4 C16")
 
+check("C05", "model_checking",
+      "States = distinct query-document texts of a grammar (all orders of all admissible sets of 1-3 operations and 0-2 "
+      "fragments; trivia deviations: tab, LF/CRLF/CR, commas, comments incl. one that looks like an operation, BOM, string "
+      "escapes, non-ASCII, trailing newline or not); transitions = (mode, selected name, normalization, entry point). Model: "
+      "QUERY is the source text byte for byte, OPERATION_NAME the unmodified name, modules belong to the selected operation, "
+      "derive mode never falls back. Model verdicts are read from the real generator's tokens and validated on compiled "
+      "modules (constants and serialised build_query body).",
+      "Trusted: syn's unescaping of the emitted string literal (cross-checked by the compiled constants); a small "
+      "snake/camel-case model for the identifiers of the alphabet.",
+      "explicit-state enumeration of document texts x selections against a model, with conformance runs on compiled code",
+      "DESIGN.md 4 C05")
+
+check("C07", "model_checking",
+      "States = schemas of a feature lattice (all subsets up to a size bound of 16 schema constructs, the full set, CORE); "
+      "transitions = comparisons of each rendering (3 SDL extensions, bare / data-wrapped JSON, with / without built-in "
+      "scalars and __ types, kind-grouped and reversed type orders, extensions folded) with the SDL rendering, for covering "
+      "query / mutation / subscription operations and two option sets. Relational oracle: identical token streams (identical "
+      "after sorting items for permuted orders).",
+      "Trusted: the pack's own SDL / introspection renderers (a wrong renderer shows up as a difference and is triaged).",
+      "explicit-state enumeration of a schema feature lattice with a relational (SDL vs JSON) oracle on the real generator",
+      "DESIGN.md 4 C07")
+
+check("C12", "model_checking",
+      "States = labelled digraphs of input object types (n = 1, 2 complete over 5 edge kinds and @oneOf flags, n = 3 over 3-4 "
+      "edge kinds on all 9 ordered pairs, n = 4 rings / chords) and 14 fragment recursion patterns. Model = finite-size rule "
+      "on the emitted items (by-value containment, cut by Vec and Box). Conformance: a covering subset and its Box-stripped "
+      "twins are compiled; rustc's E0072 verdict must agree with the model in both directions; recursive values round-trip "
+      "through Variables with JSON that shows no trace of the Box.",
+      "Trusted: rustc's size check as ground truth for the compiled subset; the syn-based edge report.",
+      "explicit-state enumeration of type graphs against a finite-size model validated against rustc",
+      "DESIGN.md 4 C12")
+
+check("C14", "model_checking",
+      "Finite space enumerated completely: 3^4 deprecation assignments x {SDL, JSON} x 5 selection styles x 4 strategies "
+      "(+ the reason alphabet on every field, + a block-string reason). Model = the three documented rules, evaluated on "
+      "the generator's tokens (attribute presence, note == reason byte for byte, omission under deny, nothing else "
+      "touched); the deny clause is validated on compiled code with payloads that contain the omitted fields.",
+      "Trusted: syn's parse of attributes; rustc/serde for the conformance runs.",
+      "exhaustive enumeration of a finite configuration space against the documented rules, with conformance runs on compiled code",
+      "DESIGN.md 4 C14")
+
 NOT_APPLICABLE = []
 
 
